@@ -599,6 +599,10 @@ Proof.
     eapply same_ctl_Inv; [apply same_ctl_halted|].
     eapply same_ctl_Inv; [apply same_ctl_mdepth|assumption].
   - simpl. assumption.
+  - destruct (get k (cos s)) as [c|] eqn:G; simpl; [|assumption].
+    destruct (cstate_eqb (co_st c) Suspended || cstate_eqb (co_st c) Dead) eqn:E; simpl; [|assumption].
+    assert (D : mco_destroy k s = (MCO_SUCCESS, set_cos s (del k (cos s)))) by (unfold mco_destroy; rewrite G, E; reflexivity).
+    eapply mco_destroy_Inv; eauto.
 Qed.
 
 Lemma init_Inv : forall gc, Inv (init gc).
